@@ -34,6 +34,10 @@ def main() -> int:
             payload = json.loads(pathlib.Path(a.replay).read_text())
             mod.replay(ctx, payload)
         else:
+            changed = core.changed_sources(pid)
+            if changed and a.tier == 'quick':
+                ctx.boost = 4
+                ctx.notes.append('source fingerprint differs in ' + ', '.join(changed) + ': quick budget x4')
             mod.run(ctx)
             broke = (not proof.get('ok')) or any(f.kind == 'corr' for f in ctx.failures)
             found = any(f.kind == 'spec' for f in ctx.failures)
